@@ -615,6 +615,45 @@ impl Runner {
                 ).map_err(err_string);
                 Self::label(&res)
             }
+            Op::SnapshotFail { inst, k } => {
+                // Quiet first, so that the failing write falls into the
+                // snapshot update itself.
+                let quiet = self.exec_pump();
+                if self.dead.is_some() {
+                    return format!("dead:{quiet}")
+                }
+                let res = {
+                    let i = self.world.inst(inst);
+                    i.enter();
+                    i.rt().tasks().schedule(
+                        krill::server::mq::Task::UpdateSnapshots,
+                        krill::server::mq::now(),
+                    ).map_err(err_string)
+                };
+                if res.is_err() {
+                    return Self::label(&res)
+                }
+                hooks::state().fault = hooks::FaultPlan {
+                    mode: hooks::FaultMode::FailAt(k),
+                    scope: hooks::FaultScope::All,
+                    instance: Some(inst),
+                    counter: 0,
+                    fired_at: None,
+                    record: false,
+                    sites: Vec::new(),
+                };
+                let pumped = self.exec_pump();
+                let fired = {
+                    let mut st = hooks::state();
+                    let fired = st.fault.fired_at.clone();
+                    st.fault = hooks::FaultPlan::default();
+                    fired
+                };
+                if fired.is_some() {
+                    self.stat("snapshot_fail.fired");
+                }
+                format!("{pumped}:{}", fired.is_some())
+            }
             Op::RemovePublisher { inst, ca } => {
                 let i = self.world.inst(inst);
                 i.enter();
